@@ -71,42 +71,105 @@ pub fn is_runtime_input(t: &RT, mode: InputMode) -> bool {
     }
 }
 
-pub fn build_bytes(case: &Case, mode: InputMode) -> Vec<u8> {
-    let mut g = vp_onnx::Graph::new("case");
-    let in_names: Vec<String> = case.inputs.iter().enumerate().map(|(i, t)| if t.is_some() { in_name(i) } else { String::new() }).collect();
-    let out_names: Vec<String> = (0..case.n_out).map(out_name).collect();
-    let mut node = vp_onnx::Node {
-        op_type: case.op.to_string(),
-        domain: case.domain.to_string(),
-        name: "the_op".to_string(),
-        inputs: in_names.clone(),
-        outputs: out_names.clone(),
-        attrs: Vec::new(),
-    };
-    for (n, v) in &case.attrs {
-        let a = match v {
-            AV::Int(i) => vp_onnx::Attr::Int(*i),
-            AV::Float(f) => vp_onnx::Attr::Float(*f),
-            AV::Str(s) => vp_onnx::Attr::Str(s.clone()),
-            AV::Ints(v) => vp_onnx::Attr::Ints(v.clone()),
-            AV::Floats(v) => vp_onnx::Attr::Floats(v.clone()),
-            AV::Tensor(t) => vp_onnx::Attr::Tensor(onnx_tensor("", t)),
-        };
-        node.attrs.push((n.clone(), a));
+/// Encode the node of a case. (Local copy of the few lines of
+/// `vp_onnx::Node::encode`, with one difference: repeated `ints` / `floats`
+/// attribute fields are written *unpacked*, as proto2 writers - the ONNX
+/// exporters - do; rten's decoder rejects the packed form with "field type
+/// mismatch".)
+fn encode_node(case: &Case, in_names: &[String], out_names: &[String]) -> vp_onnx::pb::Msg {
+    use vp_onnx::pb::Msg;
+    let mut m = Msg::new();
+    for i in in_names {
+        m.string(1, i);
     }
-    g.nodes.push(node);
+    for o in out_names {
+        m.string(2, o);
+    }
+    m.string(3, "the_op");
+    m.string(4, case.op);
+    for (name, a) in &case.attrs {
+        let mut am = Msg::new();
+        am.string(1, name);
+        match a {
+            AV::Int(i) => {
+                am.varint(3, *i as u64);
+                am.varint(20, 2);
+            }
+            AV::Float(f) => {
+                am.fixed32(2, f.to_bits());
+                am.varint(20, 1);
+            }
+            AV::Str(s) => {
+                am.bytes(4, s.as_bytes());
+                am.varint(20, 3);
+            }
+            AV::Ints(v) => {
+                for x in v {
+                    am.varint(8, *x as u64);
+                }
+                am.varint(20, 7);
+            }
+            AV::Floats(v) => {
+                for x in v {
+                    am.fixed32(7, x.to_bits());
+                }
+                am.varint(20, 6);
+            }
+            AV::Tensor(t) => {
+                am.msg(5, &onnx_tensor("", t).encode());
+                am.varint(20, 4);
+            }
+        }
+        m.msg(5, &am);
+    }
+    if !case.domain.is_empty() {
+        m.string(7, case.domain);
+    }
+    m
+}
+
+pub fn build_bytes(case: &Case, mode: InputMode) -> Vec<u8> {
+    use vp_onnx::pb::Msg;
+    let in_names: Vec<String> = case.inputs.iter().enumerate().map(|(i, t)| if t.is_some() { in_name(i) } else { String::new() }).collect();
+    // trailing absent inputs are simply not listed
+    let mut listed = in_names.clone();
+    while matches!(listed.last(), Some(s) if s.is_empty()) {
+        listed.pop();
+    }
+    let out_names: Vec<String> = (0..case.n_out).map(out_name).collect();
+    // GraphProto
+    let mut g = Msg::new();
+    g.msg(1, &encode_node(case, &listed, &out_names));
+    g.string(2, "case");
+    for (i, t) in case.inputs.iter().enumerate() {
+        let Some(t) = t else { continue };
+        if !is_runtime_input(t, mode) {
+            g.msg(5, &onnx_tensor(&in_names[i], t).encode());
+        }
+    }
     for (i, t) in case.inputs.iter().enumerate() {
         let Some(t) = t else { continue };
         if is_runtime_input(t, mode) {
-            g.inputs.push(vp_onnx::ValueInfo::typed_no_shape(&in_names[i], t.dt.onnx()));
-        } else {
-            g.initializers.push(onnx_tensor(&in_names[i], t));
+            g.msg(11, &vp_onnx::ValueInfo::typed_no_shape(&in_names[i], t.dt.onnx()).encode());
         }
     }
     for o in &out_names {
-        g.outputs.push(vp_onnx::ValueInfo::untyped(o));
+        g.msg(12, &vp_onnx::ValueInfo::untyped(o).encode());
     }
-    g.to_model_bytes(case.opset)
+    // ModelProto: ir_version 8, default-domain opset, com.microsoft v1
+    let mut m = Msg::new();
+    m.varint(1, 8);
+    m.string(2, "mc-ops");
+    m.msg(7, &g);
+    let mut os = Msg::new();
+    os.string(1, "");
+    os.varint(2, case.opset as u64);
+    m.msg(8, &os);
+    let mut ms = Msg::new();
+    ms.string(1, "com.microsoft");
+    ms.varint(2, 1);
+    m.msg(8, &ms);
+    m.into_bytes()
 }
 
 pub struct Subject {
